@@ -1766,16 +1766,26 @@ def run(run: core.Run, tier: str):
   run.extra["rule"] = (
       "layer stream (code with fix d42f1d8): {QConv2DBatchnorm, QDepthwiseConv2DBatchnorm} x {ema,batch}_stats_folding x use_bias x "
       "scale x center x geometry {valid,same} x {plain, strided, dilated, rectangular, 1x1, depth multiplier} x "
-      "{no quantizer, kernel+bias quantized_bits, kernel only, bias only} x {linear, relu}; exact regime "
-      "(eps=2^-10, var=4^j-eps, short dyadic gamma incl. 0 and negative) compared bit for bit with the Lean "
-      "model, float regime (log-uniform variances 1e-7..20 incl. 0, zero gammas) within the stated tolerance / "
-      "outside the breakpoint band; non-trivial = every case (each has its own random parameters)")
+      "{no quantizer, kernel+bias quantized_bits, kernel only, bias only} x {linear, relu}, plus the corner geometries "
+      "(batch 1, extents of 1, kernel >= input, stride > kernel, dilation with SAME, channels_first), other argument "
+      "forms and five inference routes; exact regime (eps=2^-10, var=4^j-eps, short dyadic gamma incl. 0 and negative) "
+      "compared bit for bit with the Lean model, float regime (log-uniform variances 1e-7..20 incl. 0, zero gammas) within "
+      "the stated tolerance / outside the breakpoint band.  unfold stream: 7 templates incl. same-class chains with "
+      "different quantizer options per layer, each model object unfolded as built and again after set_weights.  "
+      "history stream: one layer object in one model object, random and fixed sequences of {get_folded_weights, "
+      "unfold_model, inference by 9 routes} and {assign per variable, set_weights layer/model route with same/other "
+      "iteration, save->load_weights h5/tf, _iteration set, a real training step, quantizer attributes replaced}, every "
+      "observation judged against the CURRENT parameters (Lean Obj.run, exact-rational formula, fresh twin object).  "
+      "non-trivial = every case (each has its own random parameters)")
   run.assumptions.append(
       "float32 rounding of the fold is outside the theorems (over Q): without quantizers the real layer and the "
       "real conv->BN are compared with the exact-rational conv->BN within 2^-22*(fan_in+4)*(sum of |terms|); "
       "with quantizers cases where the rounded folded weight lands on the other side of a quantizer breakpoint "
       "are counted (band) and only required to be adjacent codes")
-  run.assumptions.append("rsqrt is an oracle input: the model receives tf.math.rsqrt(var+eps) as measured")
+  run.assumptions.append("rsqrt is an oracle input: the model receives tf.math.rsqrt(var+eps) as measured, per variance "
+                         "vector; the exact regime keeps fewer than 8 output channels (Eigen's packet rsqrt is approximate)")
+  run.assumptions.append("a training step inside a history is executed on the real layer only; the parameters it leaves are "
+                         "read back and handed to the model (training path not modelled)")
   stream_layers(run, tf, qkeras, rng, tier)
   stream_unfold(run, tf, qkeras, rng, tier)
   stream_to_folded(run, tf, qkeras, rng, tier)
